@@ -71,6 +71,14 @@ reg("C19", "reference-model monitor (float64 episode/EMA model) over LoggingCall
     "interpreter's episode return (first terminal/truncated state or cap) and n*mean decodes to n episodes over varying start states.",
     "Trusts the recording backend (thread-safe list), ordered callbacks lerax itself uses as its output channel, RefMDP interpreter.")
 
+reg("C11", "differential runtime monitor: twin executions of the real learn()/iteration() (same inputs in-process, fresh subprocess, other key, observers attached) compared leaf by leaf",
+    "Held on every twin pair explored: for all five algorithms on a finite MDP and CartPole/Pendulum, repeating learn() with the same inputs gives "
+    "bit-identical parameters (also from a fresh process), another key gives a different run, the input policy is untouched bit for bit; with "
+    "LoggingCallback (recording and console backends), ProgressBarCallback and callback lists attached the parameters stay within 1% of the "
+    "distance training moved them and all integer-valued history (environment states, replay actions/dones) is exactly equal.",
+    "Trusts XLA CPU determinism per compiled program; observers change the compiled program so bit-equality is not demanded there (1 ulp "
+    "differences were measured), a key-stream perturbation moves parameters by the order of training itself and flips discrete history.")
+
 
 def main():
     props = [json.loads(l) for l in (ROOT / "properties.jsonl").read_text().splitlines() if l.strip()]
